@@ -6,7 +6,7 @@ metric); oracle = the model's own parse of the input + re-assembly differential.
 
 import itertools
 
-from .. import core, spaces, sweep
+from .. import core, observe, spaces, sweep
 from ..engine import product
 from ..engine.product import Block, parts
 from ..ref import tables as T
@@ -33,7 +33,7 @@ def judge(fam, vec, asg):
 
     cls = getattr(cvss, T.CLASSNAME[fam])
     try:
-        obj = cls(vec)
+        obj = observe.construct(fam, vec)
         tv, ev = obj.temporal_vector(), obj.environmental_vector()
         sc = obj.scores()
     except Exception as e:  # noqa
